@@ -889,6 +889,18 @@ fn gen_byz(seed: u64, prop: &str) -> Plan {
             let at = t + b.rng.range(1, 20_000);
             add(&mut b.plan, at, Action::SwitchBranch { peer: p, branch: 1 });
         }
+        // answers with a reorg section are coming: alter single headers of later answers
+        // (fields the header hash does not cover), often inside that section
+        for p in 0..n_dev {
+            for j in 0..4u64 {
+                b.plan.peers[p].mutations.push(MutSpec {
+                    kind: 1,
+                    ordinal: 1 + mix(&[seed, p as u64, j, 0x71]) % 10,
+                    op: if j % 2 == 0 { 4 } else { 11 },
+                    seed: mix(&[seed, p as u64, j, 0x72]),
+                });
+            }
+        }
         let mut tm = t + b.rng.range(10_000, 30_000);
         while tm < until + 30_000 {
             add(&mut b.plan, tm, Action::Mine { branch: 1, n: 1 });
